@@ -110,6 +110,9 @@ class SubPackets(collections_abc.MutableMapping, Field):
         super(SubPackets, self).__init__()
         self._hashed_sp = collections.OrderedDict()
         self._unhashed_sp = collections.OrderedDict()
+        # hashed area octets exactly as received, and the subpacket objects that were parsed from them
+        self._hashed_raw = None
+        self._hashed_parsed = None
 
     def __bytearray__(self):
         _bytes = bytearray()
@@ -118,6 +121,13 @@ class SubPackets(collections_abc.MutableMapping, Field):
         return _bytes
 
     def __hashbytearray__(self):
+        if self._hashed_raw is not None:
+            current = list(self._hashed_sp.values())
+            if len(current) == len(self._hashed_parsed) and all(c is p for c, p in zip(current, self._hashed_parsed)):
+                # a received signature is hashed (and re-emitted) over the octets that were on the wire,
+                # not over a re-serialisation of what we understood of them
+                return bytearray(self._hashed_raw)
+
         _bytes = bytearray()
         _bytes += self.int_to_bytes(sum(len(sp) for sp in self._hashed_sp.values()), 2)
         for hsp in self._hashed_sp.values():
@@ -180,6 +190,9 @@ class SubPackets(collections_abc.MutableMapping, Field):
         sp = SubPackets()
         sp._hashed_sp = self._hashed_sp.copy()
         sp._unhashed_sp = self._unhashed_sp.copy()
+        if self._hashed_raw is not None:
+            sp._hashed_raw = self._hashed_raw[:]
+            sp._hashed_parsed = self._hashed_parsed[:]
 
         return sp
 
@@ -207,9 +220,14 @@ class SubPackets(collections_abc.MutableMapping, Field):
         # for their contents, but we can at least output that correctly
         # so instead of tracking how many bytes we can now output, we track how many bytes have we parsed so far
         plen = len(packet)
+        hraw = bytearray(self.int_to_bytes(hl, 2)) + packet[:hl]
         while plen - len(packet) < hl:
             sp = SignatureSP(packet)
             self['h_' + sp.__class__.__name__] = sp
+
+        # the declared length delimits what is hashed, however the subpackets inside it were consumed
+        self._hashed_raw = hraw
+        self._hashed_parsed = list(self._hashed_sp.values())
 
         uhl = self.bytes_to_int(packet[:2])
         del packet[:2]
